@@ -1,4 +1,5 @@
 import Rip.Model.Cache
+import Rip.Model.SeekIndex
 /-!
 C04 counterexamples: what the tail-scanning read paths do before the repairs (`asIs`), as they are
 now (`current'`: exit at the largest window, per-window reset, fallback; no head check) and repaired.
@@ -210,5 +211,35 @@ example : cursorFast current' thread5 (thread5.drop 2) 1 4 3 =
     some { active := some 2, cursors := [(9, 2)] } := by decide
 example : cursorFast repaired thread5 (thread5.drop 2) 1 4 3 =
     some { active := some 2, cursors := [(9, 2), (7, 0)] } := by decide
+
+/-! ### 5. a seek index that is wrong where the loader does not look (`Rip.Model.SeekIndex`) -/
+
+namespace Seek
+open Rip.SeekIndex
+
+/-- six one-byte message frames, seq 0..5 -/
+def six : List Line := (List.range 6).map (fun i => ⟨i, true, true, 0⟩)
+/-- stride 2: entries for 0, 2, 4 — the middle one carries the offset of frame 4 -/
+def skewed : List Entry := [⟨0, 0⟩, ⟨2, 4⟩, ⟨4, 4⟩]
+def good : List Entry := [⟨0, 0⟩, ⟨2, 2⟩, ⟨4, 4⟩]
+
+/-- the loader accepts the skewed index (monotonic, last entry right) … -/
+theorem skewed_index_loads : ensure 2 six (some skewed) = some skewed := by decide
+
+/-- … and before the repair the window for "the newest message at or below seq 3" came back EMPTY
+instead of [3]; with the check at use the read is refused (and the caller falls back to the log) -/
+theorem skewed_index_wrong_before_repair :
+    window false 2 100 six (some skewed) 3 1 = some [] ∧
+    windowLinear 100 six 3 1 = [3] ∧
+    window true 2 100 six (some skewed) 3 1 = none := by decide
+
+/-- non-vacuity: a right index is used and answers (it is not refused), also when it had to be rebuilt -/
+theorem good_index_answers :
+    window true 2 100 six (some good) 3 1 = some [3] ∧
+    window true 2 100 six none 3 1 = some [3] ∧
+    window true 2 100 six (some []) 5 2 = some [4, 5] ∧
+    rebuild 2 six = some good := by decide
+
+end Seek
 
 end Rip.Cex.C04
